@@ -25,6 +25,8 @@ type ReplayFn = fn(&Value) -> Vec<Finding>;
 fn table(id: &str) -> Option<(RunFn, ReplayFn)> {
     Some(match id {
         "C01" => (props::c01::run, props::c01::replay),
+        "C14" => (props::c14::run, props::c14::replay),
+        "C19" => (props::c19::run, props::c19::replay),
         _ => return None,
     })
 }
